@@ -9,9 +9,9 @@ from props import c03
 
 OBLIGATIONS = dict(
     prop_file='Properties/C09.v',
-    glue=['Glue/CoreGlue.v', 'Glue/Pin_p_mask.v', 'Glue/EinopsGlueBase.v', 'Glue/EinopsGlueMask.v', 'Glue/LensGlue.v'] + ['Glue/Pin_fp_C09.v'],
+    glue=['Glue/CoreGlue.v', 'Glue/Pin_p_mask.v', 'Glue/EinopsGlueBase.v', 'Glue/EinopsGlueMask.v', 'Glue/LensGlue.v'] + ['Glue/Pin_fp_C09.v', 'Glue/MaskGuardsGlue.v'],
     extra=['Model/CoreCheck.vo'],
-    gen_items=['g_euclid_mask_onehot', 'g_cosine_mask_onehot', 'g_euclid_ema', 'g_cosine_ema', 'p_mask', 'p_kmeans', 'p_expire', 'pr_vq', 'k_lens_to_mask', 'fp_C09'],
+    gen_items=['g_euclid_mask_onehot', 'g_cosine_mask_onehot', 'g_euclid_ema', 'g_cosine_ema', 'p_mask', 'p_kmeans', 'p_expire', 'pr_vq', 'k_lens_to_mask', 'g_vq_zero_padded_input', 'g_vq_mask_output', 'g_vq_mask_indices', 'fp_C09'],
 )
 ASSUMPTIONS = [
     'paired runs: two deep copies of one module receive the same mask and the same valid tokens but different (adversarial) padding; every observable is compared bit-exactly',
